@@ -57,13 +57,13 @@ def configs(tier):
     """name -> constants.  quick: 0-3 mappings over 3 paths (anonymous, spaces+colon, unlinked)
     x all 32 optional-line subsets x 3 roll-up modes, plus every path of the table in pairs.
     thorough adds a 4th path to that, and 4 mappings: all subsets over 3 paths, and all 7
-    paths over 4 representative subsets."""
+    paths over 2 complementary subsets."""
     c = {"maps3-paths3-allopts": consts((1, 2, 4), 3, "all"),
          "maps2-paths7": consts((1, 2, 3, 4, 5, 6, 7), 2, 2, statms=(1, 2, 3), totals=(50000, 7777))}
     if tier == "thorough":
         c["maps3-paths4-allopts"] = consts((1, 2, 3, 4), 3, "all")
         c["maps4-paths3-allopts"] = consts((1, 2, 4), 4, "all")
-        c["maps4-paths7"] = consts((1, 2, 3, 4, 5, 6, 7), 4, 4)
+        c["maps4-paths7"] = consts((1, 2, 3, 4, 5, 6, 7), 4, 2)
     return c
 
 
